@@ -633,7 +633,7 @@ def s_init_input(b: MB):
         if x2 is not None:
             k = b.rng.random()
             if k < 0.4:
-                sw = b.add_init(np.array(x2.shape, dtype=np.int64), as_input=True, override=np.array(x2.shape[::-1], dtype=np.int64))
+                sw = b.add_init(np.array(x2.shape, dtype=np.int64), as_input=True, override=np.array([-1] + list(x2.shape[1:]), dtype=np.int64))  # same result shape: declared shapes stay truthful
                 b.node("Reshape", [x2, sw], TP.FLOAT, [None] * len(x2.shape), const=False)
                 b.tag("initinput_reshape")
             elif k < 0.8:
